@@ -160,6 +160,11 @@ If several alignments are present in the input file and the output is a file
 						}
 					}
 				}
+				if subalign == nil {
+					err = fmt.Errorf("subseq: no site left (the complement of the window is empty)")
+					io.LogError(err)
+					return
+				}
 				writeAlign(subalign, f)
 				start += subseqstep
 				if subseqstep == 0 || (start+len) > al.Length() {
